@@ -107,6 +107,18 @@ PROPS["C07"]["engines"].append({"engine": "sched", "shim": True})
 PROPS["C06"]["engines"].append({"engine": "sched", "shim": True})
 PROPS["C08"]["engines"].append({"engine": "sched", "shim": True})
 
+PROPS["C11"] = {"engines": [{"engine": "open", "shim": True}],
+                "rule": ("threads: 2 and 3 racing Cas::open calls on a fresh directory, a populated closed store and a store with an un-replayed WAL tail, under the controlled scheduler with EVERY "
+                         "filesystem call under the root as a scheduling point, all schedules within the stated preemption bound; processes: the owner process is paused before each of its "
+                         "filesystem calls in turn while a second process opens the same directory (real flock), then the owner is SIGKILLed; all 6 drop orders of handle / clone / OrphanStats. "
+                         "states = distinct (program, outcomes); transitions = scheduling steps / pause points."),
+                "explanation": "Exactly one of racing opens succeeds, losers get AlreadyOpened having made no mutating call beyond opening LOCK, the directory equals that of a solo open, and a new open succeeds only after the last owner object is dropped or the owner process is killed."}
+PROPS["C19"] = {"engines": [{"engine": "open", "shim": True}],
+                "rule": ("all pairs (N at creation, N at reopen) over {1,2,3,4,10000} x 8 histories (incl. un-replayed WAL tails), edited stored format versions, and the four combinations of "
+                         "pre-created / lazy directory tree at creation and at reopen, each executed on the real store with the rejected open's libc calls traced by the shim. "
+                         "states = distinct configurations; transitions = cases."),
+                "explanation": "A mismatching open is rejected before any mutating call other than opening LOCK, leaves the directory byte-identical, and a later matching open sees the model's data; the pre-creation choice is remembered and unobservable."}
+
 ENGINES = [
     {"name": "seq", "path": "harness/src/seq.rs", "serves_properties": ["C01", "C02", "C07", "C12", "C13"],
      "kind_free_text": "bounded-exhaustive operation-sequence enumeration on the real store vs BTreeMap model + independent on-disk decoders"},
@@ -120,10 +132,12 @@ ENGINES = [
      "kind_free_text": "exhaustive small subsets of planted garbage/corruption in every bounded-history store: scan classification and clean-up exactness"},
     {"name": "sched", "path": "harness/src/sched.rs + conc.rs", "serves_properties": ["C04", "C05", "C15", "C06", "C07", "C08", "C13"],
      "kind_free_text": "CHESS-style controlled scheduler over the real parking_lot locks and real files (repo hooks + LD_PRELOAD shim), preemption-bounded exhaustive DFS, linearizability by brute force"},
+    {"name": "open", "path": "harness/src/open.rs", "serves_properties": ["C11", "C19"],
+     "kind_free_text": "racing opens under the controlled scheduler with every filesystem call as a point; cross-process pause/kill of the owner; exhaustive settings-gate configurations"},
     {"name": "crash", "path": "harness/src/crash.rs", "serves_properties": ["C03", "C06", "C08", "C12", "C20"],
      "kind_free_text": "every syscall boundary of every bounded history: live-directory crash images via LD_PRELOAD shim, recovered and checked, nested in recovery"},
 ]
 
 # properties not (yet) claimed; kept current as engines land
 NOT_APPLICABLE = {p: "engine not built yet in this round (planned, see DESIGN.md §3)" for p in
-                  ["C09", "C11", "C19"]}
+                  ["C09"]}
